@@ -212,6 +212,9 @@ var cliDir string
 func cliTmp() string {
 	if cliDir == "" {
 		base := filepath.Join(core.VerifDir(), ".build", "cli")
+		if b := os.Getenv("VERIF_BUILD"); b != "" {
+			base = filepath.Join(b, "cli")
+		}
 		os.MkdirAll(base, 0o755)
 		d, err := os.MkdirTemp(base, "w")
 		if err != nil {
